@@ -36,6 +36,17 @@ Two further dimensions of the scenario ("for all worlds and turn sequences", thr
 The differential is always within one (entry, route): same entry, same route, with vs without the subtree.  Because a
 gate predicate may be a conjunction of several leaves of the closed subtree (enabled && agents && max_workers > 1), every
 gate whose subtree is small (<= K2_QUICK_MAX_LEAVES leaves) gets the k=2 leg in the quick tier as well.
+
+Sub-switch leg ("2s", a structured slice of k=2 that is cheap enough for the quick tier of EVERY gate).  A gated
+subtree contains sub-features with a switch of their own (t2.quality.mmr.enabled, graph.merge.enabled,
+perf.t2.reader.partitions.enabled ...).  The code of such a sub-feature sits behind TWO predicates -- the parent gate
+and its own switch -- and with only the sub-switch set (k=1) the sub-feature's default parameters may happen to be
+neutral on every world.  So for every sub-switch s of a gate's subtree and every leaf p of s's own block (the leaves
+below s's parent, nested blocks included), the assignment {s: true, p: v} is enumerated for EVERY menu value v of p:
+    quick     s = every leaf named `enabled` below the gate (other than gate leaves); bases {base, all other gates ON};
+    thorough  s = every boolean leaf of the subtree (other than gate leaves); every base of the menu; also through the
+              batch driver (agent-switching sequence, world W2).
+Pairs the k=2 leg of the same tier already executes on a base are not executed twice.
 """
 from __future__ import annotations
 
@@ -394,10 +405,49 @@ if not callable(getattr(W.orch_core, "deliberate", None)):
     raise HarnessError("seam missing: orchestrator.core.deliberate")
 
 
-def ks_for(gname: str, n_leaves: int, thorough: bool) -> List[int]:
+# the sub-switch leg (module docstring): {sub-switch: true, one leaf of the sub-switch's block: every menu value}
+LEG_SUB = "2s"
+K2_BASES = ("base", "allon")
+
+
+def ks_for(gname: str, n_leaves: int, thorough: bool) -> List[Any]:
     if thorough or n_leaves <= K2_QUICK_MAX_LEAVES:
-        return [1, 2]
-    return [1]
+        return [1, 2, LEG_SUB]
+    return [1, LEG_SUB]
+
+
+def bases_for_leg(gname: str, k, thorough: bool) -> Dict[str, dict]:
+    if k == 2:
+        return bases_for(gname, tier_k2=True)
+    if k == LEG_SUB:
+        return bases_for(gname, tier_k2=not thorough)
+    return bases_for(gname, quick=not thorough)
+
+
+def sub_switches(gname: str, leaves: List[str], thorough: bool) -> List[Tuple[str, List[str]]]:
+    """[(sub-switch leaf, the other leaves of its block)].  A sub-switch is a leaf of the subtree, other than the gate
+    leaves, that can be set to true: quick = the leaves named `enabled` (a sub-feature's own switch), thorough = every
+    boolean leaf.  Its block = all leaves below its parent (nested blocks included)."""
+    spec = GATES[gname]
+    fixed = set(spec.get("only_false", [])) | {spec["gate"]}
+    out: List[Tuple[str, List[str]]] = []
+    for sw in leaves:
+        if sw in fixed:
+            continue
+        menu = menu_for(gname, sw)
+        named = sw.endswith(".enabled")
+        boolean = bool(menu) and all(isinstance(v, bool) for v in menu)
+        if not any(v is True for v in menu) or not (named or (thorough and boolean)):
+            continue
+        block = sw.rsplit(".", 1)[0] + "."
+        out.append((sw, [l for l in leaves if l != sw and l.startswith(block)]))
+    return out
+
+
+def in_pair_leg(gname: str, assign) -> bool:
+    """is this two-leaf assignment one the k=2 leg enumerates (two most active values of each leaf)?"""
+    return len(assign) == 2 and all(any(v == m and type(v) is type(m) for m in menu_for(gname, p)[:2])
+                                    for p, v in assign)
 
 
 def k2_on_batch(n_leaves: int) -> bool:
@@ -411,11 +461,14 @@ def variants_for(gname: str, k: int, bname: str, n_leaves: int, thorough: bool):
     * (plan, turn): gates in ROUTE_GATES, same sequences, both worlds;
     * (stash, batch): k=1 for every gate (quick: the agent-switching sequence on the rich world W2; thorough: the 4
       representative sequences on both worlds); k=2 for the gates with a small subtree (all sequences of the
-      tier's k=2 leg, both worlds)."""
+      tier's k=2 leg, both worlds); sub-switch leg: thorough only, the agent-switching sequence on W2."""
     out = [("stash", "turn", seqs_for(thorough, k, bname), WORLDS)]
     if gname in ROUTE_GATES:
         out.append(("plan", "turn", seqs_for(thorough, k, bname), WORLDS))
-    if k == 1:
+    if k == LEG_SUB:
+        if thorough:
+            out.append(("stash", "batch", SEQS_SMALL[1:2], ["W2"]))
+    elif k == 1:
         if thorough:
             out.append(("stash", "batch", SEQS_SMALL, WORLDS))
         else:
@@ -789,16 +842,21 @@ def _assign_worker(chunk, st: Stats, scratch: str, thorough: bool):
     _quiet()
     wdir = os.path.join(scratch, "w%d" % os.getpid())
     os.makedirs(wdir, exist_ok=True)
-    base_cache: Dict[Tuple[str, bool], Dict[str, dict]] = {}
+    base_cache: Dict[Tuple[str, Any], Dict[str, dict]] = {}
     refv_cache: Dict[Tuple[str, str], Tuple[dict, str]] = {}
     for gname, assign, k, n_leaves in chunk:
-        k2 = (k == 2)
-        bkey = (gname, k2)
+        bkey = (gname, k)
         if bkey not in base_cache:
-            base_cache[bkey] = bases_for(gname, tier_k2=k2, quick=not thorough)
+            base_cache[bkey] = bases_for_leg(gname, k, thorough)
         gate = GATES[gname]["gate"]
         executed_any = False
+        # a sub-switch pair that the k=2 leg of this tier enumerates as well: on the k=2 bases, the (route, entry)
+        # variants of the k=2 leg (whose sequences and worlds include this leg's) are not executed a second time
+        dup_of_k2 = (k == LEG_SUB and 2 in ks_for(gname, n_leaves, thorough) and in_pair_leg(gname, assign))
         for bname, base_raw in base_cache[bkey].items():
+            done_by_k2 = set()
+            if dup_of_k2 and bname in K2_BASES:
+                done_by_k2 = {(r, e) for r, e, _s, _w in variants_for(gname, 2, bname, n_leaves, thorough)}
             if any(_has_path(base_raw, p) for p, _ in assign):
                 st.add("skipped_leaf_already_set_by_base")
                 continue
@@ -827,6 +885,9 @@ def _assign_worker(chunk, st: Stats, scratch: str, thorough: bool):
             allowed = allowed_extra_for(raw, var_v, ref_v)
             for route, entry, seqs, worlds in variants_for(gname, k, bname, n_leaves, thorough):
               default_variant = (route, entry) == DEFAULT_VARIANT
+              if (route, entry) in done_by_k2:
+                  st.add("skipped_variant_executed_by_the_k2_leg")
+                  continue
               for world in worlds:
                 for seq in seqs:
                     ref = _load_ref(scratch, _ref_key(gname, bname, world, seq, route, entry))
@@ -838,6 +899,8 @@ def _assign_worker(chunk, st: Stats, scratch: str, thorough: bool):
                     st.add("transitions", len(seq))
                     st.add("validated")
                     st.add("validated_entry_%s_route_%s" % (entry, route))
+                    if k == LEG_SUB:
+                        st.add("validated_subswitch_leg")
                     st.distinct("states", [gname, bname, assign, world, seq] + ([] if default_variant else [route, entry]))
                     d = diff(ref, var, allowed)
                     case = {"gate": gname, "base": bname, "assign": assign, "world": world, "turns": seq,
@@ -879,6 +942,16 @@ def assignments(gname: str, leaves: List[str], k: int, thorough: bool) -> List[L
         for leaf in leaves:
             for v in menu_for(gname, leaf):
                 out.append([[leaf, v]])
+    elif k == LEG_SUB:
+        seen = set()
+        for sw, block in sub_switches(gname, leaves, thorough):
+            for p in block:
+                for v in menu_for(gname, p):
+                    a = sorted([[sw, True], [p, v]], key=lambda x: x[0])
+                    key = W.jd(a)
+                    if key not in seen:
+                        seen.add(key)
+                        out.append(a)
     else:
         for la, lb in itertools.combinations(leaves, 2):
             # pairs use the two most active values of each leaf
@@ -909,7 +982,7 @@ def run(run: Run) -> None:
     for g in GATES:
         nl = len(leaves_by_gate[g])
         for k in ks_by_gate[g]:
-            for bname, raw in bases_for(g, tier_k2=(k == 2), quick=not run.thorough).items():
+            for bname, raw in bases_for_leg(g, k, run.thorough).items():
                 for route, entry, seqs, worlds in variants_for(g, k, bname, nl, run.thorough):
                     for world in worlds:
                         for seq in seqs:
@@ -928,9 +1001,11 @@ def run(run: Run) -> None:
     for g in GATES:
         for k in ks_by_gate[g]:
             a = assignments(g, leaves_by_gate[g], k, run.thorough)
-            n_assign["%s:k=%d" % (g, k)] = len(a)
+            n_assign["%s:k=%s" % (g, k)] = len(a)
             items.extend((g, x, k, len(leaves_by_gate[g])) for x in a)
     run.notes["assignments"] = n_assign
+    run.notes["sub_switches_per_gate"] = {g: [sw for sw, _ in sub_switches(g, leaves_by_gate[g], run.thorough)]
+                                          for g in GATES}
     run.notes["bases_per_gate"] = {g: sorted(bases_for(g, quick=not run.thorough)) for g in GATES}
     # interleave cheap and expensive items deterministically
     items.sort(key=lambda it: h64([it[0], it[1]]))
@@ -948,6 +1023,17 @@ def run(run: Run) -> None:
                  "for the gates whose subtree has <= %d leaves (%s), because a gate predicate may be a conjunction of "
                  "several leaves of the closed subtree" % (
                      K2_QUICK_MAX_LEAVES, ", ".join(g for g in GATES if 2 in ks_by_gate[g]) or "none"))
+    n_sw = {g: len(run.notes["sub_switches_per_gate"][g]) for g in GATES}
+    scope += ("; sub-switch leg: for every sub-switch s of the subtree (%s; %s) and every other leaf p of s's own block "
+              "(leaves below s's parent, nested blocks included) the pair {s: true, p: v} for EVERY menu value v of p, on "
+              "%s x {W1,W2} x the tier's representative sequences%s (pairs the k=2 leg of this tier executes on a base "
+              "are not executed twice)" % (
+                  "every boolean leaf other than the gate leaves" if run.thorough
+                  else "every leaf named `enabled` other than the gate leaves",
+                  ", ".join("%s: %d" % (g, n) for g, n in n_sw.items()),
+                  "every base of the menu with the gate OFF" if run.thorough
+                  else "bases {'base', 'all other gates ON'}",
+                  ", and through the batch driver (agent-switching sequence, W2)" if run.thorough else ""))
     scope += ("; entry points: every case above through Orchestrator.run_turn per turn, every k=1 case ALSO through the "
               "agent batch driver _run_agents_parallel_batch (the sequence as one batch; %s), k=2 through the batch "
               "driver for the small-subtree gates; planner request routes: stashed state flag everywhere, and for the "
@@ -962,6 +1048,9 @@ def run(run: Run) -> None:
         "directory listing, state_digest after every turn) with the same base without the subtree; every reference "
         "is executed twice (determinism) and checked for artefacts of features whose gate is off. non-trivial = an "
         "assignment whose validated configuration differs from the reference's and that was executed")
+    run.assume("sub-switch leg: a sub-feature switch inside a closed subtree is an ordinary leaf of that subtree "
+               "(validate_config accepts e.g. t2.quality.enabled=false with t2.quality.mmr.enabled=true, at most with a "
+               "warning), so setting it together with one of its parameters must be as inert as any other assignment")
     run.assume("committed reading of subtree boundaries (DESIGN C02): parallel gate = perf.parallel.enabled "
                "(perf.enabled not required); scheduler.budgets.{time_ms,ops}_reflection belong to the reflection gate")
     run.assume("the quality shadow trace (rq_traces.jsonl) sits behind the PERF gate (docs/m7: perf.enabled && "
